@@ -99,7 +99,10 @@ impl KeySetProvider {
         let mut buf = [0; 64];
         reader.read_exact(&mut buf[0..20])?;
         let time = std::time::SystemTime::UNIX_EPOCH
-            + std::time::Duration::from_secs(u64::from_be_bytes(buf[0..8].try_into().unwrap()));
+            .checked_add(std::time::Duration::from_secs(u64::from_be_bytes(
+                buf[0..8].try_into().unwrap(),
+            )))
+            .ok_or(std::io::ErrorKind::Other)?;
         let id_offset = u32::from_be_bytes(buf[8..12].try_into().unwrap());
         let primary = u32::from_be_bytes(buf[12..16].try_into().unwrap());
         let len = u32::from_be_bytes(buf[16..20].try_into().unwrap());
